@@ -19,6 +19,7 @@ def check_binop_table(ctx, b, rid, result_adt, same_kind_quotient):
         raise AnchorLost('enum compiler::OperationType not found')
     discr = {v['name']: v['discr'] for v in adt['variants']}
     table = {}
+    raw = {}
     for i in b.normal_blocks:
         bl = b.blocks[i]
         nodes = [(s, 'stmt') for s in bl['stmts'] if s['k'] == 'assign' and s['rv'] == 'binop' and s['op'] in ('Add', 'Sub', 'Mul', 'Div') and s['lhs']['ty'] == 'f64']
@@ -52,6 +53,7 @@ def check_binop_table(ctx, b, rid, result_adt, same_kind_quotient):
                 l, r = b.expr(node['args'][0]), b.expr(node['args'][1])
                 loc = node['loc']
             table.setdefault(variant[0], []).append((op, l, r, loc))
+            raw.setdefault(variant[0], []).append((l, r))
     for variant, want in OPS.items():
         rows = table.get(variant, [])
         if not rows:
@@ -72,7 +74,7 @@ def check_binop_table(ctx, b, rid, result_adt, same_kind_quotient):
                 ctx.finding(rid, '%s/%s' % (short_fn(b), variant), bad, site=loc)
             else:
                 ctx.ok(rid, '%s: %s(left, right)' % (variant, op), 'gamma', site=loc)
-    return table
+    return raw
 
 
 def operand_order(b, l, r):
@@ -192,3 +194,90 @@ def getter_leaf(e):
             if names:
                 return (c[1].rsplit('::', 1)[1], names[0])
     return None
+
+
+# ---------------------------------------------------------------------------------------------
+# literal readers (number / money / percent): value = f64 parse of the normalised group text
+def _unwrap_result(e):
+    """peel Result::unwrap(..) / (.. as Ok).0 / Option::unwrap / (.. as Some).0"""
+    while True:
+        e = strip(e)
+        if e[0] == 'call' and re.search(r'(Result|Option)::<.*>::(unwrap|expect|unwrap_or_default)$|(Result|Option)::(unwrap|expect)$', e[1]) and e[2]:
+            e = e[2][0]
+        elif e[0] == 'field' and e[1][0] == 'downcast' and e[1][2] in ('Ok', 'Some'):
+            e = e[1][1]
+        else:
+            return e
+
+
+def reader_core(e):
+    """-> (group name, None) when e is  parse::<f64>( replace( replace( <capture group text>, thousand, "" ), decimal, "." ) )
+       -> (None, reason) otherwise"""
+    e = _unwrap_result(e)
+    if e[0] != 'call' or not re.search(r'str.*::parse$', e[1]):
+        return None, 'the value is not the result of str::parse (%s)' % render(e)[:100]
+    gen = e[3]['callee'].get('gen', []) if isinstance(e[3], dict) and e[3].get('callee') else []
+    if gen != ['f64']:
+        return None, 'parsed as %s, not as f64' % gen
+    r2 = strip(e[2][0])
+    if r2[0] != 'call' or not re.search(r'str.*::replace$', r2[1]):
+        return None, 'the parsed text is not `.replace(decimal separator, ".")` of something (%s)' % render(r2)[:100]
+    a_from, a_to = render(r2[2][1]), render(r2[2][2])
+    r1 = strip(r2[2][0])
+    if r1[0] != 'call' or not re.search(r'str.*::replace$', r1[1]):
+        return None, 'the thousands separator is not removed before the decimal separator is replaced (%s)' % render(r1)[:100]
+    b_from, b_to = render(r1[2][1]), render(r1[2][2])
+    if 'config.decimal_seperator' not in a_from or a_to != '"."':
+        return None, 'outer replace is (%s -> %s), expected (decimal separator -> ".")' % (a_from[:60], a_to)
+    if 'config.thousand_separator' not in b_from or b_to != '""':
+        return None, 'inner replace is (%s -> %s), expected (thousands separator -> "")' % (b_from[:60], b_to)
+    g = _unwrap_result(r1[2][0])
+    if g[0] == 'call' and re.search(r'Captures::<.*>::name$|Captures::name$', g[1]):
+        name = model.const_str(g[2][1])
+        if name:
+            return name, None
+    return None, 'the text read is %s, not a named capture group' % render(g)[:100]
+
+
+def literal_values(ctx, b, payload, opaque=None):
+    """alternatives of a literal's numeric payload after inlining local helpers: [(core expr, factor expr or None, conds)]"""
+    from .facts import inline_calls
+    e = inline_calls(ctx.facts, payload, depth=2, skip=opaque)
+    out = []
+    for a, conds in alternatives(b, e):
+        a = strip(a)
+        if a[0] == 'binop' and a[1] == 'Mul':
+            for core, c2 in alternatives(b, a[2], _conds=conds):
+                out.append((strip(core), a[3], c2))
+        else:
+            out.append((a, None, conds))
+    return out
+
+
+def check_literal_reader(ctx, rid, parser_regex, token_variant, groups, key):
+    """every decimal alternative of the literal's value is the f64 parse of the normalised text of one of `groups`"""
+    b = ctx.facts.one(parser_regex)
+    ctx.fn(b)
+    aggs = [s for i in b.normal_blocks for s in b.blocks[i]['stmts']
+            if s['k'] == 'assign' and s['rv'] == 'aggr' and s['adt'] == 'types::TokenType::' + token_variant]
+    if not aggs:
+        raise AnchorLost('%s constructs no TokenType::%s' % (fn_key(b.path), token_variant))
+    n = 0
+    shapes = []
+    for s in aggs:
+        for core, factor, conds in literal_values(ctx, b, b.expr(s['ops'][0])):
+            txt = render(core)
+            if 'from_str_radix' in txt or (core[0] == 'const' and core[2] == 0.0):
+                continue    # based literals are C13's; 0.0 is the initial value of the accumulator
+            g, why = reader_core(core)
+            n += 1
+            if g is None:
+                ctx.finding(rid, '%s/value' % key, '%s: %s' % (fn_key(b.path), why), site=s['loc'])
+            elif g not in groups:
+                ctx.finding(rid, '%s/group' % key, '%s reads group %r, expected one of %s' % (fn_key(b.path), g, groups), site=s['loc'])
+            else:
+                shapes.append(g)
+                ctx.ok(rid, '%s: value = parse::<f64>(text(%s) - thousands, decimal -> ".")%s' % (fn_key(b.path), g, ' * suffix' if factor is not None else ''), 'shape', site=s['loc'])
+    if not n:
+        raise AnchorLost('%s: no decimal value alternative found' % fn_key(b.path))
+    return shapes
